@@ -150,13 +150,16 @@ func runC09(c *Ctx) {
 			var known []string
 			var sample map[string]interface{}
 			slowSrc := rep%3 == 1
+			emptySrc := (rep+len(jd.name))%2 == 1 // no source object exists when the join is first created
 			dl := sched.Bubble(c.T, func() {
 				srcSrv, dstSrv := fakeapi.New(), fakeapi.New()
 				srcSrv.Kind, dstSrv.Kind = jd.srcKind, jd.dstKind
 				if slowSrc {
 					srcSrv.ListLatency = func(int) time.Duration { return 5 * time.Second }
 				}
-				srcSrv.Put(proto(jd.srcKind, 1, 1, 0))
+				if !emptySrc {
+					srcSrv.Put(proto(jd.srcKind, 1, 1, 0))
+				}
 				for i := 0; i < 4; i++ {
 					dstSrv.Put(proto(jd.dstKind, 1+i%2, 1+i, i))
 				}
@@ -308,7 +311,7 @@ func runC09(c *Ctx) {
 			})
 			runs++
 			c.Rep.Evaluations++
-			replay := map[string]interface{}{"join": jd.name, "seed": seed, "slow_source_list": slowSrc}
+			replay := map[string]interface{}{"join": jd.name, "seed": seed, "slow_source_list": slowSrc, "source_initially_empty": emptySrc}
 			if dl != "" {
 				replay["deadlock"] = dl
 				c.Violation("", "hang (bubble deadlock) in join "+jd.name, replay)
@@ -419,6 +422,6 @@ func runC09(c *Ctx) {
 		}
 		c.DistinctCase(fmt.Sprint("IngressPods", seed))
 	}
-	c.Rep.Rule = "all eight generated joins and the double join IngressPods over fake API servers for source and destination (typed base controllers, virtual time, perturbation): source histories (sources appear, change selector, disappear) and destination histories (labels and namespaces change) at arbitrary relative timing; three create/use/close cycles of the join over long-lived base controllers (in the second cycle the context given to the constructor is cancelled right after construction: it only carries the logger). At barriers: join cache = destination objects selected by a current source object (ownership predicate written directly; also vs the extracted constructor + accept), ready only after source and destination (slow source list variant), Close stops everything the join created (goroutine inventory back to baseline each cycle) and leaves the bases running and current. Non-trivial = every (join, scenario)."
+	c.Rep.Rule = "all eight generated joins and the double join IngressPods over fake API servers for source and destination (typed base controllers, virtual time, perturbation): source histories (sources appear, change selector, disappear) and destination histories (labels and namespaces change) at arbitrary relative timing; three create/use/close cycles of the join over long-lived base controllers (in the second cycle the context given to the constructor is cancelled right after construction: it only carries the logger). At barriers: join cache = destination objects selected by a current source object (ownership predicate written directly; also vs the extracted constructor + accept), ready only after source and destination (slow source list variant) and ready also when no source object exists at creation, Close stops everything the join created (goroutine inventory back to baseline each cycle) and leaves the bases running and current. Non-trivial = every (join, scenario)."
 	c.Rep.Stats["runs"] = runs
 }
